@@ -226,6 +226,12 @@ fn pair_case(g: &mut Sm) -> String {
         };
         // discs: random placement near contact of the bounding radii; the oracle computes the true separation
         let theta = g.range(0., 2. * PI);
+        if g.chance(0.1) {
+            // coincident or nearly coincident copies (a copy and its mirror image on one site, an identical copy)
+            let e = *g.pick(&[0., 0., 1e-12, 1e-9, 1e-6, 1e-3]);
+            let phi2 = if g.chance(0.5) { 0. } else { g.range(0., 2. * PI) };
+            return format!("mode=pair shape={} t1=0:0:0:0 t2={}:{}:{}:{}{}", shape, fmt_f(phi2), fmt_f(e), fmt_f(-e), g.below(2), common);
+        }
         let d = if shape == "circle" { 2. + delta } else { g.range(1.2, 3.6) };
         format!(
             "mode=pair shape={} t1=0:0:0:0 t2={}:{}:{}:{}{}",
@@ -376,6 +382,24 @@ pub fn gen(focus: &str, seed: u64, count: u64) -> Vec<String> {
                     format!("kind=hard group={} shape={} {}", group, shape, state_params(&mut g, group, radius, stream))
                 }
             }
+        };
+        // C11: values that came from single precision (every digit of them must survive the JSON text)
+        let body = if focus == "C11" && g.chance(0.3) {
+            body.split(' ')
+                .map(|t| {
+                    let mut it = t.splitn(2, '=');
+                    let (k, v) = (it.next().unwrap_or(""), it.next());
+                    match (k, v) {
+                        ("len", Some(v)) | ("ratio", Some(v)) | ("x", Some(v)) | ("y", Some(v)) | ("phi", Some(v)) => {
+                            format!("{}={}", k, fmt_f(parse_f(v) as f32 as f64))
+                        }
+                        _ => t.to_string(),
+                    }
+                })
+                .collect::<Vec<_>>()
+                .join(" ")
+        } else {
+            body
         };
         out.push(format!("geom id={}-{} {}", focus, i, body));
     }
